@@ -66,7 +66,7 @@ def cases(tier, seed):
                     "iseed": int(rng.integers(0, 2**31)), "cost": float(cost) * K})
     for i in range(nl):
         out.append({"kind": "loader", "model": ("ZNCC", "NCC", "PCC")[int(rng.integers(0, 3))],
-                    "entry": ("align", "multi", "group", "align-rot", "group-multi")[int(rng.integers(0, 5))],
+                    "entry": ("align", "multi", "group", "align-rot", "group-multi", "notemplate", "group-notemplate")[int(rng.integers(0, 7))],
                     "scale": float(rng.choice([1.0, 0.5, 1.7])),
                     "ms_form": ("scalar", "tuple", "array", "int")[int(rng.integers(0, 4))],
                     "iseed": int(rng.integers(0, 2**31)), "cost": 8.0})
@@ -150,7 +150,15 @@ def _loader_case(case):
     R = Rotation.from_quat(np.stack([gen.random_rotation(rng).as_quat() for _ in range(nm)]))
     mole = Molecules(pos, R, features=pl.DataFrame({"uid": list(range(nm)), "g": [i % 2 for i in range(nm)]}))
     loader = SubtomogramLoader(tomo, mole, order=1, scale=scale, output_shape=shape)
-    tmpl = gen.render_box(shape, gen.make_blobs(rng, shape, sigma=(0.9, 1.2), r_sup=1.5))
+    blobs0 = gen.make_blobs(rng, shape, sigma=(0.9, 1.2), r_sup=1.5)
+    tmpl = gen.render_box(shape, blobs0)
+    if p["entry"] in ("notemplate", "group-notemplate"):
+        # real, mis-centred particles (pure noise would align every sub-volume to itself at zero shift)
+        vol = tomo.astype(np.float64) * 0.05
+        for i in range(nm):
+            gen.render_world(T, [(4 * a, mu, sg) for a, mu, sg in blobs0], pos[i] / scale + rng.uniform(-2, 2, 3), R[i],
+                             dtype=None, out=vol)
+        loader = SubtomogramLoader(vol.astype(np.float32), mole, order=1, scale=scale, output_shape=shape)
     ms_nm = np.array([float(rng.choice([0.0, 0.8, 1.33, 2.01])), float(rng.uniform(0.2, 2.5)),
                       float(rng.choice([1.0, 0.49, 1.7]))])
     if p["ms_form"] in ("scalar", "int"):
@@ -171,6 +179,19 @@ def _loader_case(case):
         elif p["entry"] == "multi":
             t2 = gen.render_box(shape, gen.make_blobs(rng, shape, sigma=(0.9, 1.2), r_sup=1.5))
             out = loader.align_multi_templates([tmpl, t2], max_shifts=ms_arg, alignment_model=Model).molecules
+        elif p["entry"] == "notemplate":
+            if p["ms_form"] in ("tuple", "array"):
+                ms_arg = tuple(float(x) for x in np.minimum(ms_nm, 0.9 * scale))
+                ms_nm = np.asarray(ms_arg, float)
+            else:
+                ms_arg = float(min(ms_nm[0], 0.6 * scale))
+                ms_nm = np.array([ms_arg] * 3)
+            out = loader.align_no_template(max_shifts=ms_arg, alignment_model=Model).molecules
+        elif p["entry"] == "group-notemplate":
+            ms_arg = float(min(ms_nm[1], 0.7 * scale))
+            ms_nm = np.array([ms_arg] * 3)
+            grp = loader.groupby("g").align_no_template(max_shifts=ms_arg, alignment_model=Model)
+            out = Molecules.concat([ld.molecules for _, ld in grp]).sort("uid")
         elif p["entry"] == "group-multi":
             t2 = gen.render_box(shape, gen.make_blobs(rng, shape, sigma=(0.9, 1.2), r_sup=1.5))
             grp = loader.groupby("g").align_multi_templates([tmpl, t2], max_shifts=ms_arg, alignment_model=Model)
